@@ -356,14 +356,15 @@ func (i *Domain) approximateStamp(
 		i.L.DPanic("iterator prev failed in stamp")
 		return TimeStampApproximation{}, NewDiscontinuousOffsetError(endOffset, effectiveDomainLen)
 	}
-	if err = r.Close(); err != nil {
+	// r belongs to the caller, who closes it when it returns: read the previous
+	// domain through a reader of its own (reassigning r here would leak the new reader
+	// and make the caller close the old one a second time).
+	prev, err := iter.OpenReader(ctx)
+	if err != nil {
 		return TimeStampApproximation{}, err
 	}
-	if r, err = iter.OpenReader(ctx); err != nil {
-		return TimeStampApproximation{}, err
-	}
-	lowerTS, err := readStamp(r, iter.Size()+lowerTSByteOffset)
-	return Between(lowerTS, upperTS), err
+	lowerTS, err := readStamp(prev, iter.Size()+lowerTSByteOffset)
+	return Between(lowerTS, upperTS), errors.Combine(err, prev.Close())
 }
 
 // BackwardStamp calculates an approximate starting timestamp for a range given a known distance
